@@ -1,5 +1,6 @@
 import Operon.Lemmas.C02
 import Operon.Lemmas.C02Logic
+import Operon.Lemmas.C02Tool
 import Operon.Lemmas.MitoBox
 import Operon.Gen.MitoFacts
 /-!
@@ -216,6 +217,49 @@ theorem c02_entry_point_refines (T : Tables) (env : Env) (hT : TablesSound T) (h
       obtain ⟨w, t, g1, g2, g3, _⟩ := (c02_logic_pathway_refines T env hT hc e).1 v h2
       exact ⟨e, w, t, he, g1, g2, g3⟩
 
+/-! ### The tool pathway: argument expressions are in the allowed grammar -/
+
+/-- The tool pathway against PYTHON.  For every tree, registry, capability setting, environment whose comparisons
+    return booleans and table content matching Python's operators: when the tool pathway succeeds, the text is a call of
+    a registered, permitted tool by its plain name, and the pathway did exactly what Python does with that text when the
+    names of the registered tools stand for them — compile (a repeated keyword anywhere refuses the text), evaluate the positional arguments
+    and the keyword values left to right with exactly the allow-listed names, run the tool body ONCE with exactly those
+    values: same value, same interactions in the same order (nothing dropped, nothing evaluated differently); and
+    whenever that evaluation raises — in an argument expression or in the tool — the engine reports failure. -/
+theorem c02_tool_pathway_refines (T : Tables) (env : Env) (hT : TablesSound T) (hc : CmpReturnsBool env)
+    (tools : List ToolReg) (allowed : Option (List String)) (e : Expr) :
+    (∀ v, (toolPathway T env tools allowed e).2 = .ok v →
+        (∃ tn args kn kv t, e = .call (.name tn) args kn kv ∧ findTool tools tn = some t ∧ capsOk allowed t = true) ∧
+        toolPathway T env tools allowed e = pyToolRun T.names env tools e) ∧
+    ((pyToolRun T.names env tools e).failed → (toolPathway T env tools allowed e).failed) := by
+  refine ⟨fun v h => ⟨?_, ?_⟩, fun hf => ?_⟩
+  · unfold toolPathway at h
+    split at h
+    · simp [R.fail] at h
+    · exact toolPath_success_shape T env tools allowed e v h
+  · rcases toolPathway_sim T env hT hc tools allowed e with ⟨er, he⟩ | heq
+    · rw [h] at he; cases he
+    · exact heq
+  · rcases toolPathway_sim T env hT hc tools allowed e with hfail | heq
+    · exact hfail
+    · rw [heq]; exact hf
+
+/-- … at the entry point: a success result of `metabolize` on the tool pathway (forced or auto-detected by the tool-name
+    prefix) carries the value of Python's evaluation of the tool call, with exactly its interactions. -/
+theorem c02_entry_point_tool_refines (T : Tables) (env : Env) (hT : TablesSound T) (hc : CmpReturnsBool env) (cfg : Cfg)
+    (latched : Bool) (d : Pathway) (inp : Inp) (forced : Option Pathway) (tr : List Act) (v : Val) (r : Bool)
+    (h : metabolize T env cfg latched d inp forced = (tr, .result true (some v) r (some .oxidative))) :
+    ∃ e, inp.parsed = some e ∧ pyToolRun T.names env cfg.tools e = (tr, .ok v) := by
+  obtain ⟨_, hb⟩ := metabolize_success T env cfg latched d inp forced tr v r .oxidative h
+  unfold pathwayBody at hb
+  simp only at hb
+  split at hb
+  · simp [R.fail] at hb
+  · rename_i e he
+    have h2 : (toolPathway T env cfg.tools cfg.allowed e).2 = .ok v := by rw [hb]
+    obtain ⟨_, g⟩ := (c02_tool_pathway_refines T env hT hc cfg.tools cfg.allowed e).1 v h2
+    exact ⟨e, he, by rw [← g, hb]⟩
+
 /-! ### What the CALLER receives (`result.atp.value`, the text of `digest_glucose`): through the result containers
 
 `metabolizeD` / `digestGlucoseD` (`Model/MitoBox.lean`) put the containers `ATP` / `MetabolicResult` and the `str()` of the
@@ -399,6 +443,11 @@ example : litEval (.list [.const (.h 7), .tuple [.const (.h 1), .const (.h 2)]])
       ⟨13, some (.list [.const (.h 7), .tuple [.const (.h 1), .const (.h 2)]]), some (.list [.h 7, .tuple [.h 1, .h 2]]), false⟩
       none = ([], .result true (some (.list [.h 7, .tuple [.h 1, .h 2]])) false (some .beta)) := by
   exact ⟨rfl, rfl⟩
+
+/-- `c02_tool_pathway_refines`: `echo(pi, k=e)` with `echo` registered: one tool body, after the two lookups -/
+example : toolPathway Gen.tables envInt [⟨"echo", []⟩] none
+    (.call (.name "echo") [.name "pi"] [some "k"] [.name "e"]) =
+    ([.lookup "pi", .lookup "e", .tool "echo" [.h 1] [("k", .h 1)]], .ok (.h 4)) := by rfl
 
 /-- `c02_delivered_value_is_pythons`: with the containers of the current source the caller of `metabolize("true")`
     (auto-detected logic pathway) receives a success carrying `True` -/
